@@ -665,14 +665,21 @@ pub fn plan_is_fair_lossy(plan: &[(usize, Fate)]) -> bool {
 
 /// cumulative stream position at the end of each data sequence number `from_a` sent (first transmissions)
 fn seq_end_map(l: &RunLog, from_a: bool) -> std::collections::BTreeMap<u16, u64> {
-    let mut seq_end: std::collections::BTreeMap<u16, u64> = Default::default();
-    let mut seen: std::collections::BTreeSet<u16> = Default::default();
-    let mut pos = 0u64;
+    // stream position after each sequence number, in order of first appearance. A never-acknowledged
+    // MTU probe may be re-cut under the same sequence number: its final size is what the later
+    // sequence numbers are laid out behind.
+    let mut order: Vec<u16> = vec![];
+    let mut last_len: std::collections::BTreeMap<u16, u64> = Default::default();
     for w in l.wire.iter().filter(|w| w.from_a == from_a && w.ptype == 0 && !w.injected && !w.rejected) {
-        if seen.insert(w.seq) {
-            pos += w.payload.len() as u64;
-            seq_end.insert(w.seq, pos);
+        if last_len.insert(w.seq, w.payload.len() as u64).is_none() {
+            order.push(w.seq);
         }
+    }
+    let mut seq_end: std::collections::BTreeMap<u16, u64> = Default::default();
+    let mut pos = 0u64;
+    for s in order {
+        pos += last_len[&s];
+        seq_end.insert(s, pos);
     }
     seq_end
 }
@@ -761,6 +768,23 @@ pub fn honest_completion(scn: &Scenario, l: &RunLog) -> Vec<Finding> {
                             "eof/position-differs-from-fin",
                             format!("{} read end-of-stream at offset {} but {} bytes precede the peer's FIN (seq {})", side_name(side), at, before, fw.seq),
                         ));
+                    }
+                    // ... and every byte the peer's write had accepted before the peer closed (shutdown, or
+                    // drop of its halves) precedes that FIN - unless this side closed first (uTP has no
+                    // half-close: the late side's writer is cut short by design) or the peer's writer saw an error
+                    let peer_close_t = l.app.iter().find(|e| e.side == peer && matches!(e.ev, AppEv::ShutdownCalled | AppEv::WriterDropped)).map(|e| e.t_us);
+                    let peer_write_err = l.app.iter().any(|e| e.side == peer && matches!(e.ev, AppEv::WriteErr(_) | AppEv::FlushErr(_) | AppEv::ShutdownErr(_)));
+                    let my_fin_first = l.wire.iter().any(|w| w.from_a == from_a && w.ptype == 1 && !w.injected && w.k < fw.k);
+                    if let Some(tc) = peer_close_t {
+                        let accepted_before_close: u64 = l.app.iter().filter(|e| e.side == peer && e.t_us <= tc).map(|e| if let AppEv::WriteAccepted { n, .. } = e.ev { n as u64 } else { 0 }).sum();
+                        if !peer_write_err && !my_fin_first && at < accepted_before_close {
+                            v.push(f(
+                                "C03",
+                                "eof",
+                                "eof/clean-eof-before-bytes-accepted-before-the-close",
+                                format!("{} saw a clean end-of-stream at {} although {}'s writes had accepted {} bytes before it closed (at {} us) and reported no error", side_name(side), at, side_name(peer), accepted_before_close, tc),
+                            ));
+                        }
                     }
                     // and never a clean EOF with bytes missing while the writer was told shutdown succeeded
                     let peer_shutdown_ok = l.app.iter().any(|e| e.side == peer && e.ev == AppEv::ShutdownOk);
